@@ -96,7 +96,7 @@ def _dropping(series, extra):
         native=dict(cpp='dropping_history.cpp', file='include/quill/Logger.h', function='LoggerImpl::log_statement, BoundedSPSCQueue / UnboundedSPSCQueue, BackendWorker::{_poll,_check_failure_counter}', defs_quick=['LEN=7'] + extra, defs_thorough=['LEN=8'] + extra),
         bounded=dict(bound='every history of <= 7 (thorough: 8) actions over 5 statement sizes and poll; queue capacity 1 KiB (unbounded: up to 2 KiB)', form='b'),
         dropped=[], trusted=['g++ / libstdc++ / fmt execute the real frontend and backend on ONE thread (no concurrency: the interleavings are units BQ.* / UQ.*)'], min_obligations=1, timeout=1500)
-UNITS += [_dropping('bounded', []), _dropping('unbounded', ['SERIES_UNBOUNDED'])]
+UNITS += [_dropping('bounded', []), _dropping('unbounded', ['SERIES_UNBOUNDED']), _dropping('bounded, C-string arguments', ['SERIES_CSTR'])]
 exception_history = dict(
     name='BW.exception_history', primary='C10', props={'C10'}, kind='L', funcs=[], enforce=None,
     desc='formatting failures (user formatter throwing std::exception or an int, DeferredFormatCodec) and throwing sinks through the real pipeline with two sinks on one logger, for every history of bounded length: the other statements reach both sinks once and in order, a failing one is missing at most from the throwing sink and those after it or carries the explanatory text, every failure is reported once, the backend keeps running',
